@@ -202,7 +202,12 @@ class Retry(State):
 
         # If we are entering from a different state, then this is our first try;
         # reset the retry counter.
-        if event_data.transition.source != self.name:
+        source = event_data.transition.source
+        prefix = getattr(event_data.machine, 'prefix_path', None)
+        if prefix:
+            # a transition declared inside a nested state names its source relative to that scope
+            source = event_data.machine.state_cls.separator.join(list(prefix) + [source])
+        if source != self.name:
             _LOGGER.debug('%sRetry limit for state %s reset (came from %s)',
                           event_data.machine.name, self.name,
                           event_data.transition.source)
